@@ -95,6 +95,12 @@ def gen_base(rng, tier, index):
     case = {"pool": "factory" if index % 4 == 3 else "functor", "workers": workers,
             "wq": rng.choice([None, 1, 2, 0.5, 1.0, 1.0, 2.0]), "rq": rng.choice([None, None, 1, 2, 3]),
             "calls": [call], "ready_first": rng.random() < 0.2}
+    if index % 16 == 9:
+        # a two-stage pipeline: another pool's ordered imap is the input (two ordered calls alive at once, both holding
+        # out-of-order chunks back: alternating chunk durations)
+        call = {"ordered": True, "n": 14 + index % 5, "chunk": 2, "form": "list", "salt": 1,
+                "durations": {"mode": "alternate", "t": 0.03, "chunk": 0, "phase": index % 2, "nchunks": 8}}
+        case.update(calls=[call], nested_pool=True, workers=max(2, case["workers"]), pool="functor")
     if index % 8 == 4 and not (call.get("twins") or call.get("exc_results")):
         # two more calls on the same pool, all three result generators created before the first one is consumed
         second = dict(call, n=max(0, n - 3), salt=call["salt"] + 1)
